@@ -218,8 +218,8 @@ theorem parse_denotes_formula_tokens (e : Expr) (hp : ∀ a ∈ exprAtoms e, Pla
 /-- **Precedence and grouping at character level, canonical layout.**  The real entry point — the
 context-sensitive tokenizer (regenerated rules, `\b`) and the parser on characters — run on the expression's
 token sequence spelled with single spaces (none inside parentheses), returns a list denoting exactly the
-expression's formula.  (Other layouts — white space, quote style, PEP 345 spellings — are tied by the
-correspondence check.) -/
+expression's formula.  (Every other layout — white space, quote style, PEP 345 spellings, more parentheses —:
+`C07.marker_parse_render_layout` in C07Layout.lean.) -/
 theorem parse_precedence_char (e : Expr) (hc : ∀ a ∈ exprAtoms e, CanonAtom a) :
     ∃ l, parse (spell e.toks) = .ok l ∧ formulaOf l = some e.sem := by
   refine ⟨lst e, ?_, formulaOf_lst e⟩
